@@ -12,6 +12,13 @@ def fuzz(name, target, fuzztime, workers=8, timeout=None):
     return {"name": name, "kind": "fuzz", "target": target, "thorough": t}
 
 PROPS = {
+    "C16": {
+        "level": "exploration",
+        "jobs": [
+            rapid("pbt", "^TestC16$", {"checks": 20000, "timeout": 300}, {"checks": 300000, "shards": 6, "timeout": 2400}),
+            fuzz("fuzz", "FuzzC16", "90s", timeout=400),
+        ],
+    },
     "C15": {
         "level": "exploration",
         "jobs": [
